@@ -29,6 +29,7 @@ Ops(nw) ==
                           \cup {Op("dissociate", "", 0, <<>>, "p1", "", <<0>>, FALSE, "")}
                           \cup {Op("realloc", "", 0, <<>>, "p1", "", <<0>>, FALSE, d) : d \in Deltas}
                           \cup {Op("replace", "", 0, <<>>, "p1", "", <<0>>, FALSE, "")}
+                          \cup {Op("control", "", 0, <<>>, "p1", "", <<0>>, f, d) : f \in BOOLEAN, d \in {"stop", "start", "restart"}}
           ELSE {})
     \cup (IF nw >= 2 THEN {Op("remove", "", 0, <<>>, "p1", "", <<0, 1>>, TRUE, ""), Op("dissociate", "", 0, <<>>, "p1", "", <<1, 0>>, FALSE, ""),
                            Op("realloc", "", 0, <<>>, "p1", "", <<1>>, FALSE, "bind"), Op("replace", "", 0, <<>>, "p1", "", <<0, 1>>, FALSE, "")}
@@ -37,16 +38,17 @@ Ops(nw) ==
               c \in {1, 2, 3}, r \in {"u", "b"}, bh \in {"ok", "exit3", "logserr", "waiterr", "attacherr"}, si \in BOOLEAN}
     \cup {Op("setnode", "", 0, <<"n1">>, "p1", "", <<>>, FALSE, d) : d \in {"mem+", "cpu+", "mem-"}}
     \cup {Op("addnode", "", 0, <<"n9">>, "p1", "", <<>>, FALSE, ""), Op("addnode", "", 0, <<"n1">>, "p1", "", <<>>, FALSE, "")}
-    \cup {Op("removenode", "", 0, <<"n2">>, "p1", "", <<>>, FALSE, ""), Op("removepod", "", 0, <<>>, "p1", "", <<>>, FALSE, "")}
+    \cup {Op("removenode", "", 0, <<"n2">>, "p1", "", <<>>, FALSE, ""), Op("removepod", "", 0, <<>>, "p1", "", <<>>, FALSE, ""),
+          Op("fix", "", 0, <<"n1">>, "p1", "", <<>>, FALSE, "")}
 Scenarios == {[nodes |-> Layout(lay), wls |-> WlSet(ws), op |-> o, mode |-> m, every |-> 1] :
                  lay \in Layouts, ws \in WlSets, o \in UNION {Ops(Len(WlSet(w))) : w \in WlSets}, m \in Modes \cup {"once"}}
 Valid(s) == /\ \A i \in 1..Len(s.op.targets) : s.op.targets[i] < Len(s.wls)
-            /\ (s.op.kind \in {"remove", "dissociate", "realloc", "replace"} => Len(s.wls) > 0)
+            /\ (s.op.kind \in {"remove", "dissociate", "realloc", "replace", "control"} => Len(s.wls) > 0)
             /\ (s.mode = "crash" => s.op.kind = "create")
             /\ (s.op.kind = "lambda" <=> s.mode = "once")
             /\ (s.op.kind = "lambda" => (s.op.stdin => s.op.count = 1) /\ (s.op.delta = "attacherr" => s.op.stdin) /\ s.wls = <<>>)
             /\ (Len(s.op.targets) = 2 => Len(s.wls) >= 2)
-            /\ (s.nodes = Layout("one-down") => (s.wls = <<>> /\ s.op.kind \in {"removepod", "removenode", "setnode", "addnode"} /\ s.mode = "fault"))
+            /\ (s.nodes = Layout("one-down") => (s.wls = <<>> /\ s.op.kind \in {"removepod", "removenode", "setnode", "addnode", "fix"} /\ s.mode = "fault"))
 Init == sc \in {s \in Scenarios : Valid(s)} /\ q = 0
 Next == q = 0 /\ q' = 1 /\ UNCHANGED sc
 Spec == Init /\ [][Next]_<<sc, q>>
